@@ -356,6 +356,16 @@ class KmipEngine(object):
     def _process_batch(self, request_batch, batch_handling, batch_order):
         response_batch = list()
 
+        # Batch item IDs are mandatory when the batch holds several items.
+        # Check them before any item is processed so that a malformed batch
+        # cannot take effect without its results being reported.
+        if len(request_batch) > 1:
+            for batch_item in request_batch:
+                if not batch_item.unique_batch_item_id:
+                    raise exceptions.InvalidMessage(
+                        "Batch item ID is undefined."
+                    )
+
         with self._data_store_session_factory() as session:
             self._data_session = session
 
